@@ -2,7 +2,7 @@
 from pyvc.api import *
 from pyvc.spec import callee_of
 
-SPEC_IMPORTS = ['contracts.common']
+SPEC_IMPORTS = ['contracts.common', 'contracts.c15']
 SPEC_FUNCTIONS = ['doc_sort_key', 'name_with_symbols_spec', 'match_spec', 'sorted_spec']
 REC_FUNCTIONS = {'gsub': ([('l', STR), ('s', STR)], BOOL)}
 
@@ -377,3 +377,10 @@ def register(reg):
         '_remove_duplicates', params=[('completions', Seq(Obj('Completion'))), ('other', Seq(Obj('Completion')))],
         ret=Seq(Obj('Completion')), pure=True, assumed=False,
         note='prefixed completions whose name is not also offered as a name completion')
+
+
+def dynamic_contracts(repo):
+    """(f) attribute completeness after `expr.`: the class hierarchy (MRO) of every value is produced by a memoised
+    generator; every consumer must see ALL its elements (contract shared with C15)"""
+    from contracts import c15
+    return [c15._gen_cache]
